@@ -170,4 +170,131 @@ theorem decodeStore_rel_cc {st st' : Store} (h : Rm st st') (bs : Bytes)
         obtain ⟨h1, h2⟩ := hn v r0 start r1 stride r2 hU hS hD
         exact decItems_cc_rel stride v st st' start r2 h h1 h2
 
+/-! ### 2. one store block on a `Sim` pair -/
+
+@[simp] theorem gps_decode (x : GPS grow) (b : List (BitVec 8)) (sub : SubFlag) :
+    StoreI.DecodeAndMergeWith x b sub = gDecode x b sub := rfl
+
+/-- the same error; when it is nil: the same remaining bytes and related receivers -/
+def StepRel (x : GPS grow) (st : Store) (b : List (BitVec 8)) (sub : SubFlag) : Prop :=
+  (StoreI.DecodeAndMergeWith x b sub).2.2 = (StoreI.DecodeAndMergeWith st b sub).2.2 ∧
+  ((StoreI.DecodeAndMergeWith st b sub).2.2 = GoErr.nil →
+    (StoreI.DecodeAndMergeWith x b sub).2.1 = (StoreI.DecodeAndMergeWith st b sub).2.1 ∧
+    Sim (StoreI.DecodeAndMergeWith x b sub).1 (StoreI.DecodeAndMergeWith st b sub).1)
+
+/-- `len(buffer) ≤ max(cap(buffer), trigger)`: true of every Go slice (`len ≤ cap`), not of every record value -/
+def CapOK (g : GP) : Prop := (g.buffer.length : Int) ≤ max g.bufferCap g.bufferCompactionTriggerLen
+
+theorem capOK_new : CapOK NewBufferedPaginatedStore := by
+  show ((0 : Nat) : Int) ≤ max (4 : Int) _
+  omega
+
+theorem capOK_of_empty (g : GP) (h : g.buffer = []) (ht : 0 ≤ g.bufferCompactionTriggerLen) : CapOK g := by
+  unfold CapOK; rw [h]; simp only [List.length_nil]; omega
+
+/-- `gDecode` runs the regenerated paginated decoder with SOME fallback (the regenerated generic decoder over `baseI`,
+    irrelevant for the two layouts the paginated store decodes itself) -/
+theorem gDecode_eq (x : GPS grow) (b : List (BitVec 8)) (sub : SubFlag) :
+    ∃ fb, gDecode x b sub =
+      match BufferedPaginatedStore.DecodeAndMergeWith (gDecodeFuel x b) grow fb x.g b sub with
+      | .ok (g', b', e) => (⟨g'⟩, b', e)
+      | _ => (x, b, GoErr.nil) := ⟨_, rfl⟩
+
+theorem decErr_eof : GenSketch.decErr .eof = GoErr.eof := rfl
+
+/-- from `DecAgrees` (regenerated decoder vs the model on the store's own image) and `OutRel` (model on the image vs
+    model on the partner) to `StepRel` -/
+theorem stepRel_of_agrees (x : GPS grow) (s' : PStore) (b : List (BitVec 8)) (sub : SubFlag) (k : Nat)
+    (hk : Wire.flagSub sub.byte.toNat = k)
+    (r : Res (GP × List (BitVec 8) × GoErr))
+    (hr : gDecode x b sub = match r with
+      | .ok (g', b', e) => (⟨g'⟩, b', e)
+      | _ => (x, b, GoErr.nil))
+    (m : Option (Except SkErr (Store × Bytes))) (hA : DecAgrees r m)
+    (hO : OutRel m (Sketch.decodeStore (.pg s') k (nb b))) : StepRel x (.pg s') b sub := by
+  have hM : (StoreI.DecodeAndMergeWith (Store.pg s') b sub : Store × List (BitVec 8) × GoErr) =
+      match Sketch.decodeStore (.pg s') k (nb b) with
+      | some (.ok (st', rest)) => (st', bn rest, GoErr.nil)
+      | some (.error e) => (.pg s', b, GenSketch.decErr e)
+      | none => (.pg s', b, GoErr.nil) := by
+    show GenSketch.storeDecode (.pg s') b sub = _
+    unfold GenSketch.storeDecode
+    rw [hk]; rfl
+  unfold StepRel
+  rw [gps_decode, hr, hM]
+  generalize Sketch.decodeStore (.pg s') k (nb b) = m' at hO
+  cases m with
+  | none => exact hA.elim
+  | some q =>
+    cases q with
+    | error e =>
+      obtain ⟨he, g', b', hr'⟩ := hA
+      subst he hr'
+      cases m' with
+      | none => exact hO.elim
+      | some q' =>
+        cases q' with
+        | ok p' => exact hO.elim
+        | error e' =>
+          have : SkErr.eof = e' := hO
+          subst this
+          exact ⟨rfl, fun h => absurd (show GoErr.eof = GoErr.nil from h) (by decide)⟩
+    | ok p =>
+      obtain ⟨st1, rest⟩ := p
+      obtain ⟨s1, cap1, st1'', hr', rfl, hi1, hi1'', hc1⟩ := hA
+      subst hr'
+      cases m' with
+      | none => exact hO.elim
+      | some q' =>
+        cases q' with
+        | error e' => exact hO.elim
+        | ok p' =>
+          obtain ⟨st2, rest'⟩ := p'
+          obtain ⟨⟨a, a', ha, ha', hia, hia', hca⟩, hrest⟩ := hO
+          simp only at ha ha' hrest
+          cases ha
+          subst ha' hrest
+          exact ⟨rfl, fun _ => ⟨rfl, s1, a', cap1, rfl, rfl, hi1, hia', by rw [hc1, hca]⟩⟩
+
+theorem flagSub_deltas : Wire.flagSub BinEncodingIndexDeltas.byte.toNat = Consts.binEncodingIndexDeltas := by decide
+theorem flagSub_cc :
+    Wire.flagSub BinEncodingContiguousCounts.byte.toNat = Consts.binEncodingContiguousCounts := by decide
+
+/-- **layout `BinEncodingIndexDeltas`** on a `Sim` pair -/
+theorem sim_decode_deltas {x : GPS grow} {st : Store} (h : Sim x st) (b : List (BitVec 8)) (hcap : CapOK x.g)
+    (hn : ∀ v rest, decUvarint64 (nb b) = .ok (v, rest) → v < 2 ^ 63)
+    (hidx : ∀ u ∈ storeIndexes Consts.binEncodingIndexDeltas (nb b), Idx32 u) :
+    StepRel x st b BinEncodingIndexDeltas := by
+  obtain ⟨s, s', cap, hx, rfl, hi, hi', hc⟩ := h
+  have hcap' : (s.buffer.length : Int) ≤ max cap (s.trigger : Int) := by
+    unfold CapOK at hcap; rw [hx] at hcap; exact hcap
+  have hf : deltasFuel compactFuel grow s cap b ≤ gDecodeFuel x b := by
+    unfold gDecodeFuel; rw [hx, ofGen_toGen, toGen_bufferCap]; omega
+  obtain ⟨fb, hfb⟩ := gDecode_eq x b BinEncodingIndexDeltas
+  have hA := DecodeAndMergeWith_deltas compactFuel compactSpec grow fb
+    (gDecodeFuel x b) s cap b hi hcap' hn hidx hf
+  rw [← hx] at hA
+  exact stepRel_of_agrees x s' b _ _ flagSub_deltas _ hfb _ hA
+    (decodeStore_rel_deltas ⟨s, s', rfl, rfl, hi, hi', hc⟩ (nb b) hidx)
+
+/-- **layout `BinEncodingContiguousCounts`** on a `Sim` pair; `2v ≤ 3·len(b) + 51` (`v` the announced number of bins)
+    makes the fuel of the instance sufficient -/
+theorem sim_decode_contiguous {x : GPS grow} {st : Store} (h : Sim x st) (b : List (BitVec 8))
+    (hn : ∀ v r0 start r1 stride r2, decUvarint64 (nb b) = .ok (v, r0) → decVarint64 r0 = .ok (start, r1) →
+      decVarint64 r1 = .ok (stride, r2) →
+      2 * v ≤ 3 * b.length + 51 ∧ (∀ j : Nat, j < v → Idx32 (start + (j : Int) * stride)) ∧
+        (∀ c ∈ ccCounts v r2, NonnegFin c)) :
+    StepRel x st b BinEncodingContiguousCounts := by
+  obtain ⟨s, s', cap, hx, rfl, hi, hi', hc⟩ := h
+  obtain ⟨fb, hfb⟩ := gDecode_eq x b BinEncodingContiguousCounts
+  have hA := DecodeAndMergeWith_contiguous page_spec grow fb
+    (gDecodeFuel x b) s cap b hi (by unfold gDecodeFuel; omega)
+    (fun v r0 start r1 stride r2 h1 h2 h3 => by
+      obtain ⟨a1, a2, a3⟩ := hn v r0 start r1 stride r2 h1 h2 h3
+      exact ⟨by unfold gDecodeFuel; omega, a2, a3⟩)
+  rw [← hx] at hA
+  exact stepRel_of_agrees x s' b _ _ flagSub_cc _ hfb _ hA
+    (decodeStore_rel_cc ⟨s, s', rfl, rfl, hi, hi', hc⟩ (nb b)
+      (fun v r0 start r1 stride r2 h1 h2 h3 => (hn v r0 start r1 stride r2 h1 h2 h3).2))
+
 end DDS.GenPagSketch
